@@ -13,7 +13,7 @@ from common import Disagreement, Failure
 ID = 'C02'
 DRIVER = 'drv_insp'
 DRIVER_ROOT = 'Drivers.Insp'
-PROOF_MODULES = ['OsloProofs.Props.C02Gate', 'OsloProofs.Props.C02', 'OsloProofs.Props.C02More']
+PROOF_MODULES = ['OsloProofs.Props.C02Gate', 'OsloProofs.Props.C02', 'OsloProofs.Props.C02More', 'OsloProofs.Props.C02Gpt']
 LEVEL = 'proof'
 RULE = ('trait-combination images built from each format\'s layout (qcow2: each of the 64 incompatible-feature bits, '
         'random sets, versions 0..5 and extremes, backing-file offset classes 0/1/2^63/2^64-1, v2 headers with '
